@@ -385,6 +385,12 @@ func (hash *SexpHash) HashSet(key Sexp, val Sexp) error {
 		return fmt.Errorf("HashSet: val cannot be comment")
 	}
 	key = hashKeyOf(key) // let single number keys work: h[6]=10
+	if sym, isSym := key.(*SexpSymbol); isSym && sym.isDot {
+		// HashGet reads a dotted symbol as a path into nested records, and
+		// the generic comparison resolves it as a variable reference: it
+		// could be stored, but never found, printed or deleted again.
+		return fmt.Errorf("HashSet: the dotted symbol '%s' names a path, it cannot be a key", sym.name)
+	}
 
 	err := hash.TypeCheckField(key, val)
 	if err != nil {
